@@ -162,6 +162,14 @@ pub fn replay(a: &Args) {
         std::fs::create_dir_all(&dir).unwrap();
         let valid = &docs[ci % docs.len()];
         let input = setup_input(&dir, c["input"].as_str().unwrap(), valid, ci / 7);
+        // every fourth valid input is a named pipe that delivers the document in three pieces ("every input file")
+        let fifo = c["input"] == "valid" && ci % 4 == 3 && {
+            let _ = std::fs::remove_file(&input);
+            Command::new("mkfifo").arg(&input).status().map(|s| s.success()).unwrap_or(false)
+        };
+        if c["input"] == "valid" && ci % 4 == 3 && !fifo {
+            std::fs::write(&input, valid).unwrap();
+        }
         let (output, old) = setup_output(&dir, c["out"].as_str().unwrap(), &input, ci / 5);
         // an option the behaviour leaves out ("ABSENT") is not passed; the others cycle through the spellings clap accepts
         let mut args: Vec<String> = Vec::new();
@@ -211,6 +219,20 @@ pub fn replay(a: &Args) {
                     .env("COLUMNS", "20").env("RUST_LOG", "trace").env("RUST_BACKTRACE", "full").env("TZ", "Pacific/Kiritimati").current_dir("/");
             }
             _ => {}
+        }
+        if fifo {
+            let (path, bytes) = (input.clone(), valid.clone());
+            std::thread::spawn(move || {
+                use std::io::Write;
+                if let Ok(mut f) = std::fs::OpenOptions::new().write(true).open(&path) {
+                    let (a, b) = (bytes.len() / 3, 2 * bytes.len() / 3);
+                    for piece in [&bytes[..a], &bytes[a..b], &bytes[b..]] {
+                        let _ = f.write_all(piece);
+                        let _ = f.flush();
+                        std::thread::sleep(std::time::Duration::from_millis(25));
+                    }
+                }
+            });
         }
         let out = cmd.output();
         let out = match out {
